@@ -41,6 +41,13 @@ GetOK(S1, r) ==
         /\ r.get.haslen = (B.len # NoLen)
         /\ (B.len # NoLen => r.get.len_s = B.len)
 
+(* C06: an operation on a bar that is not attached to a visible target (hidden target,  *)
+(* Term that is not a tty, member of a hidden MultiProgress, removed from its           *)
+(* MultiProgress) performs no terminal operation at all.                                *)
+SilentBar(S0, S1, r) ==
+    \/ r.b \in S1.ids /\ ~Visible(S1, r.b) /\ (r.b \in S0.ids => ~Visible(S0, r.b)) /\ r.op \notin {"mp_remove"}
+    \/ r.b = 0 /\ S1.mphid /\ r.op \in {"mp_println", "mp_clear", "mp_suspend", "mp_set_alignment"}
+
 (* A finished, visible bar whose last handle is dropped stays on the terminal as it  *)
 (* is: what was painted last for it must be the rendering of its final state.        *)
 FinalOK(S0, S1, r) ==
@@ -61,6 +68,16 @@ Step(S0, T0, r) ==
         quietS == [S1 EXCEPT !.above = S1.above \o items]
     IN
     IF r.panic # "" THEN [S |-> S1, T |-> T1, rule |-> "NoPanic", m |-> NoM]
+    ELSE IF S0.faulty \/ r.op = "fail_at" THEN
+        (* C18: after an injected terminal failure the screen is not predicted any more; what *)
+        (* remains is: no panic (above), the logical state, and errors reported by the calls  *)
+        (* that return io::Result when their own draw failed.                                 *)
+        [S |-> [quietS EXCEPT !.faulty = TRUE], T |-> T1, m |-> NoM,
+         rule |-> IF ~GetOK(S1, r) THEN "GetOK"
+                  ELSE IF r.op \in {"mp_println", "mp_clear"} /\ r.failed > 0 /\ r.ret # "err" THEN "ErrReported"
+                  ELSE ""]
+    ELSE IF SilentBar(S0, S1, r) /\ (LibCalls(r) # <<>> \/ r.pipe > 0) THEN
+        [S |-> quietS, T |-> T1, m |-> NoM, rule |-> "SilentOK"]
     ELSE IF ~drew THEN
         [S |-> quietS, T |-> T1, m |-> NoM,
          rule |-> IF LibCalls(r) # <<>> THEN "QuietOK"
